@@ -501,3 +501,42 @@ def aligned_types(chk, prog, config="default"):
                         "allocation is not aligned to MAX_ALIGN" % (want, got),
                  sample={"alignment": want, "repr_align_of_selected_type": got})
     chk.floor("aligned-type-impls[%s]" % config, n, 8)
+
+
+# ------------------------------------------------------------------------------------------------ coercion sites
+
+def coercion_site_is_raw_pointer(chk, prog, config="default"):
+    """unsize! lets the *compiler* vouch for the conversion: the caller-visible closure `|p| -> $ty { p }` compiles only
+    if `p` coerces to the target. That vouches for identity only at a raw-pointer coercion site, where the sole
+    coercions are unsizing ones (same address, new metadata). At a reference site `&T -> &U` also compiles through
+    `Deref` (String to str, Box<T> to T, Gc<T> to T): another address altogether, behind which the collector finds no
+    header. Every function implementing `__coerce_unchecked` must therefore demand `FnOnce(*const T) -> *const U`."""
+    import re as _re
+    n = 0
+    for name, fs in sorted(prog.fn_n.items()):
+        if not name.endswith("::__coerce_unchecked"):
+            continue
+        for f in fs:
+            preds = [p["s"] for p in f.get("predicates", [])]
+            fn_bounds = [p for p in preds if _re.search(r"\bFn(Once|Mut)?\(", p)]
+            outs = [p for p in preds if "Output ==" in p and "Fn" in p]
+            if not fn_bounds:
+                continue            # the trait declaration's own entry may carry no closure bound
+            n += 1
+            probs = []
+            for p in fn_bounds:
+                m = _re.search(r"\bFn(?:Once|Mut)?\((.*)\)\s*$", p)
+                args = m.group(1) if m else ""
+                if not _re.match(r"^\s*\*const\s", args):
+                    probs.append("closure argument `%s` is not a raw pointer" % args)
+            for p in outs:
+                tgt = p.split("Output ==", 1)[1].strip()
+                if not tgt.startswith("*const "):
+                    probs.append("closure result `%s` is not a raw pointer" % tgt)
+            if not outs:
+                probs.append("no result type demanded of the coercion closure")
+            chk.inst("coercion-site-is-raw-pointer", "%s[%s]" % (name, config), not probs,
+                     detail="`%s`: %s - a reference coercion site also admits Deref coercions, which change the address" % (
+                         name, "; ".join(probs)),
+                     loc="%s:%s" % (f["span"]["f"], f["span"]["l"]), sample={"fn": name, "closure_bounds": fn_bounds + outs})
+    chk.floor("coercion-functions[%s]" % config, n, 2)
